@@ -240,6 +240,13 @@ def a_reconnect(lost, fire):
     cover("re-assembled")
 
 
+def a_after_reject(n, frags):
+    """an ill-formed text message is rejected; the messages that FOLLOW are reassembled from their own frames only (C02's
+    R-after-reject, shared)"""
+    from .c02 import r_after_reject
+    return r_after_reject(n, frags)
+
+
 def a_threads(t):
     """two receivers in recv(): a fragmented message is delivered intact to one of them (C12's interleaving query, shared)"""
     from .c12 import w_order_recv
@@ -296,6 +303,9 @@ def obligations(tier):
                           "connect() again on the same object with or without close() in between; new message of 2 fragments (2+1 symbolic "
                           "bytes, opcode symbolic); per-fragment delivery off/on", must_cover=["re-assembled"],
                    kernel=["WebSocket.connect", "WebSocket._recv", "frame_buffer", "continuous_frame"]),
+        Obligation("A-after-reject", a_after_reject, [dict(n=n, frags=f) for n in (1, 2, 3) for f in (1, 2)],
+                   bounds="ill-formed text message of 1..3 symbolic bytes in 1 or 2 fragments (payload exception), followed by a binary and a text frame",
+                   must_cover=["after-reject"], kernel=["continuous_frame.extract", "continuous_frame.add", "recv_data_frame"]),
         Obligation("A-step", a_step, step,
                    bounds="ONE step from an arbitrary valid reassembler state (idle / in message with accumulated 0,1,3 symbolic bytes, first "
                           "opcode symbolic) on an arbitrary data frame (opcode, FIN symbolic, payload 0..2 bytes): inductive, any number of fragments",
